@@ -21,14 +21,26 @@ DRIVER = 'drv_c14'
 
 CLAIM = {
     'technique': 'Lean 4 induction over request histories on an integer sample-counter model + real-number '
-                 'facts about the Jakes sum; exact bookkeeping correspondence and toleranced value correspondence',
+                 'facts about the Jakes sum; sample-index bookkeeping, time scale and Jakes formula regenerated from the '
+                 'AST (symbolic execution) and equated with the model by bridge theorems; exact bookkeeping '
+                 'correspondence and toleranced value correspondence',
     'text': 'For every start state and every finite history of generate / skip / shape requests the model of '
             'JakesSampleGenerator returns exactly the requested number of samples with the configured shape and '
             'entry j of a request is the Jakes sum at time (k0 + samples requested before + j)*Ts for the phase '
             'draw in force (chunking_invariant, chunks_concat_eq_single, skip_is_discarded_generation, '
             'history_counter: induction over the operation list, no bound on sizes or positions); over the reals '
             'Fd = 0 gives a constant process and |h| <= sqrt(L) (triangle inequality by induction over the rays, '
-            'bound attained). The model is the index-based time stepping of the repaired code and is tied to it '
+            'bound attained). The model is the index-based time stepping of the repaired code. It is tied to the '
+            'current source (a) by regeneration: harness/gen/c14.py executes generate_more_samples / '
+            'skip_samples_for_next_generation symbolically on the AST (private helpers and properties inlined, one '
+            'run per kind of request size: default / integer z / non-integer; canonical linear integer forms in '
+            'the counter k and the validated size z; typed values so that a time vector is accepted only as '
+            '(integer index vector) * scalar) and re-emits Generated/C14Jakes.lean: counter after the call on '
+            'every path incl. the raising ones, exception, index vector (first, count, step), time scale, ray '
+            'phase, amplitude, sum over the rays (also for the free function generate_jakes_samples); '
+            'generated_bookkeeping_matches_model, generated_jakes_formula_matches_model and '
+            'generated_request_evaluates_model_samples equate it with the model for ALL counters, sizes and real '
+            'parameters (linear integer arithmetic / ring; cos, sin, sqrt, pi stay class operations); (b) '
             'by seeded histories (positions up to 1e10 reached by skips, n up to 1e5, Ts 1e-9..1, shapes '
             'None/int/tuples, shape reassignments): counts, shapes, sample numbers, counter, epoch compared '
             'exactly, time vectors to 2 ulp, values to sqrt(L)*(1e-12 + 2^-48*phase). The float-stepped arange '
@@ -3145,7 +3157,7 @@ def check(ctx):
                 'shape None/int/tuples of 0..3 dims, numpy RandomState(seed) phases; long-run sweep: skip to 2^e+d '
                 'then small requests; robustness families R15 (close-but-distinct Fd / Ts sets, margins from the reference) and R16 (argument buffers refilled in place); robustness families R1..R7 (typed sizes crossing the range of each integer type, typed parameters and shapes, phase layouts, rejected calls, boundary sizes/shapes, rescaled time axis, life cycle); histories of 1e3..3e4 requests of 1..4 samples; every history of <= 3 (quick) / 4 (thorough) requests over a 9-letter alphabet; non-trivial = distinct history with >= 2 requests / distinct value probe '
                 'whose tolerance is < 1e-6 / distinct oracle case')
-    core.prove(ctx, MODULE, generated=[], drivers=[DRIVER], scratch=ctx.scratch)
+    core.prove(ctx, MODULE, generated=['C14Jakes'], drivers=[DRIVER], scratch=ctx.scratch)
     ctx.required_branches = ['oracle:R14:single-request-above-2^21-terms', 'op:gen', 'op:gen-default', 'op:skip', 'op:set-shape', 'shape:none', 'shape:int',
                              'long-run-request(k>=2^21)', 'position>=1e9', 'value-tol<1e-6', 'Fd=0',
                              'magnitude:at-bound', 'oracle:long-run', 'corpus', 'tiny-request-history',
